@@ -1382,6 +1382,14 @@ func (up4 *UP4) modifyUP4ForwardingConfiguration(pdrs []pdr, allFARs []far, qers
 					continue
 				}
 
+				// PDRs of one session may share a sessions entry (same UE address or same
+				// F-TEID); like the second INSERT reports ALREADY_EXISTS, the second DELETE
+				// reports NOT_FOUND. The entry is gone, which is what was asked for.
+				if methodType == p4.Update_DELETE &&
+					status.GetCanonicalCode() == int32(codes.NotFound) {
+					continue
+				}
+
 				return ErrOperationFailedWithReason("applying table entries to UP4", p4Error.Error())
 			}
 		}
